@@ -44,6 +44,15 @@ type seqEval struct {
 	colls map[string]AV
 	nbv   int
 	depth int
+	// lists of carrier structs built from the rules of a view: which rules, and what each field of
+	// the carrier is in terms of the rule it was built from (ν)
+	mapped map[string]*mappedColl
+}
+
+type mappedColl struct {
+	member Ref           // over ν
+	fields map[string]*E // field name -> value, in terms of ν
+	elT    types.Type
 }
 
 func (e *seqEval) undecided(format string, args ...any) (seqVal, bool) {
@@ -110,7 +119,7 @@ func (e *seqEval) closePred(act *Summary, l *Loop, q Ref, bv *E) (Ref, *E, bool)
 	q = u.bdd.Restrict(q, body)
 	m := map[string]*E{}
 	for _, at := range u.AtomsOf(q) {
-		for _, x := range u.Collect(at, func(x *E) bool { return x.Op == "index" && len(x.Args) == 2 && x.Args[0] == collE }) {
+		for _, x := range u.Collect(at, func(x *E) bool { return (x.Op == "index" || x.Op == "iaddr") && len(x.Args) == 2 && x.Args[0] == collE }) {
 			m[x.key] = bv
 		}
 	}
@@ -208,13 +217,27 @@ func (e *seqEval) rets(sub *Summary, idx int) (seqVal, bool) {
 		if !ok {
 			return v, false
 		}
+		// a return inside a loop, or reached by leaving one early (the returning block itself is
+		// not part of the natural loop)
+		var inLoop ssa.Instruction
 		if innermostLoop(loopsOf(sub.Fn), b) != nil {
+			inLoop = r
+		} else {
+			for _, l := range loopsOf(sub.Fn) {
+				for _, ex := range l.Exits {
+					if ex[0] != l.Header && (ex[1] == b || ex[1].Dominates(b)) && len(ex[0].Instrs) > 0 {
+						inLoop = ex[0].Instrs[len(ex[0].Instrs)-1]
+					}
+				}
+			}
+		}
+		if inLoop != nil {
 			// left from inside a loop: only "everything is dropped" can be said without knowing
 			// how far the loop got
 			if v.base != "EMPTY" {
 				return e.undecided("%s: a list is returned from inside a loop", e.c.P.Pos(r.Pos()))
 			}
-			c2, ok := e.existsIn(sub, r, cond)
+			c2, ok := e.existsIn(sub, inLoop, cond)
 			if !ok {
 				return seqVal{}, false
 			}
@@ -440,6 +463,36 @@ func (e *seqEval) summarise(a AV, ph *ssa.Phi, l *Loop) (seqVal, bool) {
 		if init.base != "EMPTY" {
 			return e.undecided("%s: elements are appended to a list that is not empty", e.c.P.Pos(ph.Pos()))
 		}
+		if collE != nil && lat.appElem.Op == "struct" && types.Identical(elT, e.nrT) {
+			// a carrier struct per kept rule: remember which rules and what the fields are
+			src, ok := e.seq(AV{act, ro.Coll})
+			if !ok || src.appElem != nil || src.base != "ALL" {
+				return e.undecided("carrier structs are built from something other than a view of DNSRewritesAll()")
+			}
+			p, _, ok := e.closePred(act, l, lat.app, e.nu)
+			if !ok {
+				return seqVal{}, false
+			}
+			mc := &mappedColl{member: u.bdd.And(u.bdd.And(src.def, init.def), u.bdd.And(u.bdd.Not(src.drop), p)), fields: map[string]*E{}, elT: lat.appElem.Typ}
+			sub := map[string]*E{}
+			for _, x := range u.Collect(lat.appElem, func(x *E) bool { return x.Op == "index" && len(x.Args) == 2 && x.Args[0] == collE }) {
+				sub[x.key] = e.nu
+			}
+			for i := 0; i+1 < len(lat.appElem.Args); i += 2 {
+				name, _ := lat.appElem.Args[i].StrVal()
+				v := lat.appElem.Args[i+1]
+				if len(sub) > 0 {
+					v = u.Subst(v, sub)
+				}
+				if u.Mentions(v, func(x *E) bool { return x.Op == "loopphi" || x.Op == "loopval" }) {
+					return e.undecided("a field of the carrier struct depends on the state of the collecting loop")
+				}
+				mc.fields[name] = v
+			}
+			key := "MAP:" + act.Env[ph].key
+			e.mapped[key] = mc
+			return seqVal{base: key, drop: False, app: False, def: True}, true
+		}
 		if collE == nil || lat.appElem.Op != "index" || lat.appElem.Args[0] != collE {
 			return e.undecided("%s: the appended element is not the element visited", e.c.P.Pos(ph.Pos()))
 		}
@@ -492,7 +545,7 @@ func seqDecide(c *Ctx, dr, dra *ssa.Function, kImp int64) (decided bool, bad str
 	} else {
 		return false, "", "result type"
 	}
-	e := &seqEval{c: c, g: g, u: u, top: s, dra: dra, nrT: nrT, colls: map[string]AV{}}
+	e := &seqEval{c: c, g: g, u: u, top: s, dra: dra, nrT: nrT, colls: map[string]AV{}, mapped: map[string]*mappedColl{}}
 	e.nu = u.BVar(60, nrT)
 	e.exc = u.BVar(61, nrT)
 	res, ok := e.rets(s, 0)
@@ -507,12 +560,14 @@ func seqDecide(c *Ctx, dr, dra *ssa.Function, kImp int64) (decided bool, bad str
 		return false, "", "the result is not a view of DNSRewritesAll()"
 	}
 	D := res.drop
+	if os.Getenv("UFSEQ") != "" {
+		fmt.Println("SEQ D0 =", clip(u.ShowBool(D), 3000))
+	}
 	// the loops the result was computed by have ended: what their counters say is decided
 	for _, at := range u.AtomsOf(D) {
-		if at.Op != "exists" && u.Mentions(at, func(x *E) bool { return x.Op == "loopphi" && x.Typ != nil && isIntT(x.Typ) }) &&
-			!u.Mentions(at, func(x *E) bool {
-				return (x.Op == "loopphi" || x.Op == "loopval") && (x.Typ == nil || !isIntT(x.Typ)) && false
-			}) {
+		// (only the loops' own control: a comparison of a counter; what is said about the element
+		// an iteration visits stays, and makes the reading give up below if it was not closed)
+		if isControlAtom(u, at) {
 			D = u.bdd.Exists(D, u.atomIx[at.key])
 		}
 	}
@@ -614,7 +669,9 @@ func seqDecide(c *Ctx, dr, dra *ssa.Function, kImp int64) (decided bool, bad str
 		phi Ref // over X and ν
 	}
 	var searches []search
+	var lastMapped *mappedColl
 	resolve := func(coll *E) (Ref, string) {
+		lastMapped = nil
 		if cm, isCarried, okC := e.carriedListMember(coll, X); isCarried {
 			if !okC {
 				return False, "the list searched for exceptions is built in a way outside the reading: " + e.why
@@ -641,7 +698,14 @@ func seqDecide(c *Ctx, dr, dra *ssa.Function, kImp int64) (decided bool, bad str
 			return False, "the list searched for exceptions is not resolved: " + clip(u.Show(coll), 80)
 		}
 		if st, isSl := av.V.Type().Underlying().(*types.Slice); !isSl || !types.Identical(st.Elem(), nrT) {
-			return False, "exceptions are kept in a list of another element type"
+			// a list of carrier structs, each built from one rule of a view
+			e.why = ""
+			cs, ok := e.seq(av)
+			if mc := e.mapped[cs.base]; ok && mc != nil {
+				lastMapped = mc
+				return u.SubstBool(mc.member, map[string]*E{e.nu.key: X}), ""
+			}
+			return False, "exceptions are kept in a list of another element type (" + e.why + ")"
 		}
 		e.why = ""
 		cs, ok := e.seq(av)
@@ -692,7 +756,28 @@ func seqDecide(c *Ctx, dr, dra *ssa.Function, kImp int64) (decided bool, bad str
 		if why != "" {
 			return false, "", why
 		}
-		if bv != nil {
+		if mc := lastMapped; mc != nil && bv != nil {
+			// the bound variable is a carrier struct: its fields are what they were built from
+			sub := map[string]*E{}
+			bad := ""
+			for _, a2 := range u.AtomsOf(pred) {
+				for _, x := range u.Collect(a2, func(x *E) bool { return x.Op == "field" && len(x.Args) == 1 && x.Args[0] == bv }) {
+					fv, have := mc.fields[x.Aux]
+					if !have {
+						bad = x.Aux
+						continue
+					}
+					sub[x.key] = u.Subst(fv, map[string]*E{e.nu.key: X})
+				}
+			}
+			if bad != "" {
+				return false, "", "a field of the carrier struct is read that the collecting loop does not set: " + bad
+			}
+			pred = u.SubstBool(pred, sub)
+			if u.Mentions(u.Bool(pred), func(x *E) bool { return x == bv }) {
+				return false, "", "the carrier struct is used as a whole"
+			}
+		} else if bv != nil {
 			pred = u.SubstBool(pred, map[string]*E{bv.key: X})
 		}
 		if dbg {
@@ -711,8 +796,7 @@ func seqDecide(c *Ctx, dr, dra *ssa.Function, kImp int64) (decided bool, bad str
 	Dc := u.bdd.Restrict(D, careAll)
 	quant := func(f Ref) Ref {
 		for _, at := range u.AtomsOf(f) {
-			if at.Op != "exists" && u.Mentions(at, func(x *E) bool { return x.Op == "loopphi" && x.Typ != nil && isIntT(x.Typ) }) &&
-				!u.Mentions(at, func(x *E) bool { return (x.Op == "loopphi" || x.Op == "loopval") && (x.Typ == nil || !isIntT(x.Typ)) }) {
+			if isControlAtom(u, at) {
 				f = u.bdd.Exists(f, u.atomIx[at.key])
 			}
 		}
@@ -1058,4 +1142,40 @@ func (e *seqEval) carriedListMember(coll *E, X *E) (member Ref, isCarried, ok bo
 		member = u.bdd.Or(member, u.bdd.And(inSrc, p))
 	}
 	return member, true, true
+}
+
+// isControlAtom: a comparison that involves the counter of a loop and otherwise only lengths of
+// lists - what a loop's own control tests.  Nothing about an element.
+func isControlAtom(u *U, at *E) bool {
+	if at.Op == "exists" {
+		return false
+	}
+	counter := false
+	ok := true
+	var walk func(x *E, underLen bool)
+	walk = func(x *E, underLen bool) {
+		if x == nil || !ok {
+			return
+		}
+		if underLen {
+			return // the length of whatever list
+		}
+		switch x.Op {
+		case "index", "iaddr", "field", "call", "lookup":
+			ok = false
+			return
+		case "loopphi", "loopval":
+			if x.Typ != nil && isIntT(x.Typ) {
+				counter = true
+			} else if !underLen {
+				ok = false
+			}
+			return
+		}
+		for _, a := range x.Args {
+			walk(a, x.Op == "len")
+		}
+	}
+	walk(at, false)
+	return ok && counter
 }
